@@ -92,10 +92,55 @@ def run_solver(name, path, budget, want_model=False):
     return first, dt, out
 
 
+CACHE_DIR = os.path.join(os.path.dirname(os.path.dirname(os.path.abspath(__file__))), ".cache", "smt")
+
+
+def _cache_get(key):
+    if os.environ.get("VERIF_NO_SMT_CACHE"):
+        return None
+    try:
+        with open(os.path.join(CACHE_DIR, key)) as fh:
+            import json
+
+            return json.load(fh)
+    except (OSError, ValueError):
+        return None
+
+
+def _cache_put(key, res):
+    if os.environ.get("VERIF_NO_SMT_CACHE"):
+        return
+    try:
+        import json
+
+        os.makedirs(CACHE_DIR, exist_ok=True)
+        tmp = os.path.join(CACHE_DIR, f".{key}.{os.getpid()}.{next(_seq)}")
+        with open(tmp, "w") as fh:
+            json.dump({k: res[k] for k in ("status", "backend", "time", "answers")}, fh)
+        os.replace(tmp, os.path.join(CACHE_DIR, key))
+    except OSError:
+        pass
+
+
 def check_text(txt, budget, order=ORDER, all_solvers=False, workdir=None):
-    """returns dict(status=unsat|sat|unknown|conflict, backend, time, outputs)"""
+    """returns dict(status=unsat|sat|unknown|conflict, backend, time, outputs).
+    Definitive answers are memoised on disk by the hash of the SMT-LIB text (the same obligation is shared by several properties);
+    the text is generated from /repo's current source on every run, so a changed function yields a different text."""
     d = workdir or tempfile.gettempdir()
     h = hashlib.sha1(txt.encode()).hexdigest()[:16]
+    ckey = hashlib.sha1((txt + "|" + str(sorted(budget.items())) + "|" + str(all_solvers)).encode()).hexdigest()
+    hit = _cache_get(ckey)
+    if hit is not None and hit.get("status") in ("sat", "unsat"):
+        hit["outputs"] = {}
+        hit["cached"] = True
+        return hit
+    res = _check_text(txt, budget, order, all_solvers, d, h)
+    if res["status"] in ("sat", "unsat"):
+        _cache_put(ckey, res)
+    return res
+
+
+def _check_text(txt, budget, order, all_solvers, d, h):
     path = os.path.join(d, f"pyvc_{os.getpid()}_{h}_{next(_seq)}.smt2")
     with open(path, "w") as fh:
         fh.write(txt)
